@@ -201,7 +201,7 @@ RESUME_T = [
     S("h_driver", drv(0, 2, n=3, cp=0), ["resume.final_text_identical"], tiers=T),
     S("h_driver", drv(0, 1, n=2, cp=1, B=3, user=1), ["resume.final_text_identical"], tiers=T),
     S("h_driver", drv(0, 1, n=2, cp=0, d=2, user=1), ["resume.final_text_identical"], tiers=T),
-    S("h_driver", drv(0, 2, n=2, cp=0, C=3, user=1), ["resume.final_text_identical"], tiers=T),
+    S("h_driver", drv(0, 2, n=1, cp=0, C=3, user=1), ["resume.final_text_identical"], tiers=T, split=8),
     S("h_driver@24", drv(0, 2, n=2, cp=1, user=1), ["resume.final_text_identical"], tiers=T),
     S("h_driver@64", drv(0, 2, n=2, cp=1, user=1), ["resume.final_text_identical"], tiers=T),
 ]
@@ -257,8 +257,8 @@ STOP_JOBS = [
     S("h_driver", drv(5, 1, n=1, cp=3, fk=2, unit=1, t0=1), ["builtin.zero_target_never"]),
     S("h_driver", drv(5, 2, n=2, cp=0, fk=2, t0=1), ["builtin.zero_target_never"]),
     S("h_driver", drv(5, 1, n=2, cp=3, fk=2, t0=1), ["builtin.zero_target_never"], tiers=T, split=8),
-    S("h_driver", drv(5, 0, n=2, cp=3, fk=2, unit=1), ["builtin.stops_iff"], tiers=T, split=10, timeout_ms=600000),
-    S("h_driver", drv(5, 0, n=2, cp=3, fk=2), ["builtin.at_least_one"], tiers=T, timeout_ms=120000),
+    S("h_driver", drv(5, 0, n=2, cp=3, fk=2, unit=1, fc=1), ["builtin.stops_iff"], tiers=T, split=10, timeout_ms=300000),
+    S("h_driver", drv(5, 0, n=2, cp=3, fk=2, fc=2), ["builtin.at_least_one"], tiers=T, split=8, timeout_ms=120000),
 ]
 PLAN["C12"] = dict(functions=DRIVER_FUNCS + ["hep::callback<Checkpoint>::operator()", "hep::weighted_with_variance", "hep::create_result"],
                    bounds={"quick": "n<=3 iterations, callback answers: every true/false sequence; built-in callback: target symbolic in (0,1] and "
@@ -441,7 +441,7 @@ MPI_JOBS = [
     S("h_mpi", mpi(0, 1, P=3, n=2, tc=2, fk=1, user=1), MPI_EQ, tiers=T, split=12),
     S("h_mpi", mpi(0, 2, P=2, n=2, tc=2, fk=1), MPI_EQ, tiers=T, split=8),
     S("h_mpi", mpi(0, 2, P=4, n=1, tc=5, fk=1, user=1), MPI_EQ, tiers=T, split=12),
-    S("h_mpi", mpi(1, 0, P=2, n=2, tc=3, fk=2), ["mpi.stops_like_the_serial_run"], tiers=T, split=12, timeout_ms=600000),
+    S("h_mpi", mpi(1, 0, P=2, n=2, tc=3, fk=2, fc=4), ["mpi.stops_like_the_serial_run"], tiers=T, split=12, timeout_ms=300000),
     S("h_mpi", mpi(2, 1, P=2, n=1, tc=1), ["mpi.only_rank_zero_prints"], tiers=T),
 ]
 PLAN["C04"] = dict(
@@ -534,7 +534,10 @@ PLAN["C07"]["jobs"] = PLAN["C07"]["jobs"] + only(MPI_JOBS, lambda j: j["cfg"]["o
     only(STATE_JOBS, lambda j: j["cfg"]["alg"] == 1 and "quick" in j["tiers"])
 
 USED_JOBS = [
-    S("h_driver", drv(5, 0, n=2, cp=3, fk=2, used=1), ["builtin.decision_depends_only"], tiers=T, split=12, timeout_ms=600000),
+    S("h_driver", drv(5, 0, n=2, cp=3, fk=2, used=1, fc=2), ["builtin.decision_depends_only"]),
+    S("h_driver", drv(5, 0, n=2, cp=3, fk=2, unit=1, fc=2), ["builtin.stops_iff"]),
+    S("h_driver", drv(10, 0, n=2, cp=3, fk=2, fc=2), ["resume.with_target_precision"]),
+    S("h_driver", drv(10, 1, n=2, cp=3, fk=2, fc=2), ["resume.with_target_precision"], tiers=T, split=8),
     S("h_driver", drv(5, 0, n=2, cp=3, fk=2, used=1, t0=1), ["builtin.decision_depends_only"]),
 ]
 PLAN["C12"]["jobs"] = PLAN["C12"]["jobs"] + USED_JOBS
@@ -573,7 +576,7 @@ for _p in ("C04", "C19", "C07"):
     PLAN[_p]["jobs"] = PLAN[_p]["jobs"] + MPI_B3
 PLAN["C20"]["jobs"] = PLAN["C20"]["jobs"] + [S("h_driver", drv(6, 0, n=1, cp=3, fk=2, unit=1), ["modes.decision_identical"]),
                                              S("h_driver", drv(6, 1, n=1, cp=3, fk=2, unit=1), ["modes.decision_identical"]),
-                                             S("h_mpi", mpi(1, 0, P=2, n=2, tc=3, fk=2), ["mpi.stops_like_the_serial_run"], tiers=T, split=12, timeout_ms=600000)]
+                                             S("h_mpi", mpi(1, 0, P=2, n=2, tc=3, fk=2, fc=4), ["mpi.stops_like_the_serial_run"], split=4)]
 
 FP_DIST_JOBS = [
     S("h_distribution@24fp", dict(ob=0, bx=3, N=1, crange=1), ["bitprecise.exactly_one_bin"], timeout_ms=120000),
@@ -585,3 +588,26 @@ FP_DIST_JOBS = [
 PLAN["C11"]["jobs"] = PLAN["C11"]["jobs"] + FP_DIST_JOBS
 PLAN["C11"]["assumptions"] = PLAN["C11"]["assumptions"] + ["jobs named @24fp/@53fp: bit-precise IEEE binary32/binary64 model, range [0,1) with 2-4 bins, "
     "coordinate symbolic: exactly one bin inside the range, none outside, hit bin = bin of the coordinate or a neighbour (the property's edge tolerance)"]
+
+MPI_SCRIPTED = [
+    S("h_mpi", mpi(3, 0, P=2, n=3, tc=1), ["mpi.stops_like_the_serial_run", "mpi.callback_invoked_once"]),
+    S("h_mpi", mpi(3, 0, P=3, n=3, tc=3), ["mpi.stops_like_the_serial_run"]),
+    S("h_mpi", mpi(3, 1, P=2, n=2, tc=0, fk=1, B=3), ["mpi.stops_like_the_serial_run"]),
+    S("h_mpi", mpi(3, 2, P=2, n=2, tc=0, fk=1), ["mpi.stops_like_the_serial_run"]),
+]
+PLAN["C12"]["jobs"] = PLAN["C12"]["jobs"] + MPI_SCRIPTED
+PLAN["C04"]["jobs"] = PLAN["C04"]["jobs"] + MPI_SCRIPTED[:2]
+
+PLAN["C19"]["jobs"] = PLAN["C19"]["jobs"] + [S("h_driver", drv(7, 1, n=2, cp=2, B=3, user=0), ["state.iteration_uses_refinement"], split=4)]
+PLAN["C07"]["jobs"] = PLAN["C07"]["jobs"] + [S("h_driver", drv(7, 1, n=2, cp=2, B=3, user=0), ["state.iteration_uses_refinement"], split=4)]
+MD_JOBS = [S("h_iteration", it(2, N=1, d=1, md=2, C=2, fk=2, jk=1), ["multi_channel.d_plus_one_canonical", "multi_channel.coordinate_buffer"]),
+           S("h_iteration", it(2, N=2, d=2, md=1, C=2, fk=2, jk=1), ["multi_channel.d_plus_one_canonical"])]
+for _p in ("C10", "C17", "C02"):
+    PLAN[_p]["jobs"] = PLAN[_p]["jobs"] + MD_JOBS
+PLAN["C18"]["jobs"] = PLAN["C18"]["jobs"] + [S("h_crash", dict(alg=0, n=2, cp=0, notmp=1), ["crash.without_a_temporary_file"]),
+                                             S("h_crash", dict(alg=1, n=2, cp=0, notmp=1, dist=1, fk=1, name=6), ["crash.without_a_temporary_file"])]
+
+PLAN["C16"]["jobs"] = PLAN["C16"]["jobs"] + [I("share", "share:drivers-ir-slice")]
+PLAN["C16"]["functions"] = PLAN["C16"]["functions"] + ["the i64 value handed to plain_iteration / vegas_iteration / multi_channel_iteration inside hep::mpi_plain / "
+    "mpi_vegas / mpi_multi_channel (backward slice of the clang -O1 -fno-inline IR over loads of rank, world and the call count)"]
+PLAN["C04"]["jobs"] = PLAN["C04"]["jobs"] + [I("share", "share:drivers-ir-slice")]
